@@ -12,7 +12,8 @@
     the zero-padded input after the 4-byte header; the position of a cursor `c`
     is `T - c.size`, `T = 32 · #words`.
   * `cfgOf`, `render` — the instance and the bytes of a sink record.
-  * `block_strict` — a block whose `retrieve()` answers OK consumed ≥ 1 bit.
+  * `retrOk_strict` — a block whose `retrieve()` answers OK consumed ≥ 1 bit
+    (strictness of `Lemmas.ExpandBlock.blockAt_size`; needed for the clamp `rres`).
   * `seq_go` / `seqRun_expandRest` — `seqRun (cfgOf …)` succeeds with records
     `recs` iff `expandRest` answers `ok (recs.flatMap render)`.
 -/
